@@ -2,7 +2,6 @@ package props
 
 import (
 	"fmt"
-	"reflect"
 	"strings"
 	"sync"
 
@@ -15,18 +14,39 @@ import (
 
 // C09 — effective DNS rewrites apply every matching exception, in any order.
 
-var c09Values = []string{
-	"1.1.1.1", "2.2.2.2", "::1", "new.example", "other.example", "REFUSED", "NXDOMAIN",
-	"NOERROR;TXT;hello", "NOERROR;TXT;Hello", "NOERROR;MX;10 mx.example", "NOERROR;SRV;10 60 8080 srv.example", "NOERROR;HTTPS;10 svc.example alpn=h2",
+// c09Value is a rewrite value as written and, independently of the parser, what
+// it means: two values are the same rewrite iff their canonical forms are equal.
+type c09Value struct{ text, canon string }
+
+// c09CoreValues: the values of the core alphabet (explored one level deeper).
+var c09CoreValues = []c09Value{
+	{"1.1.1.1", "A|1.1.1.1"}, {"2.2.2.2", "A|2.2.2.2"}, {"::1", "AAAA|::1"}, {"new.example", "CNAME|new.example"}, {"other.example", "CNAME|other.example"},
+	{"REFUSED", "RCODE|REFUSED"}, {"NXDOMAIN", "RCODE|NXDOMAIN"},
+	{"NOERROR;TXT;hello", "TXT|hello"}, {"NOERROR;TXT;Hello", "TXT|Hello"}, {"NOERROR;MX;10 mx.example", "MX|10 mx.example"}, {"NOERROR;SRV;10 60 8080 srv.example", "SRV|10 60 8080 srv.example"},
+	{"NOERROR;HTTPS;10 svc.example alpn=h2", "HTTPS|10 svc.example alpn=h2"},
 }
 
-// c09Alphabet returns rule texts: value x important x exception, the two
-// empty-valued exceptions and the empty-valued non-exception rewrite.
-func c09Alphabet() (texts []string) {
-	for _, v := range c09Values {
+// c09MoreValues: the same rewrites written the long way, an IPv4-mapped
+// address in both spellings, and HTTPS values that differ in one parameter.
+var c09MoreValues = []c09Value{
+	{"NOERROR;A;1.1.1.1", "A|1.1.1.1"}, {"NOERROR;CNAME;new.example", "CNAME|new.example"},
+	{"::ffff:1.2.3.4", "AAAA|::ffff:1.2.3.4"}, {"NOERROR;AAAA;::ffff:1.2.3.4", "AAAA|::ffff:1.2.3.4"},
+	// same priority, target and parameter count; one has a flag parameter (empty value) the other lacks
+	{"NOERROR;HTTPS;10 svc.example alpn=h2 no-default-alpn=", "HTTPS|10 svc.example alpn=h2 no-default-alpn="}, {"NOERROR;HTTPS;10 svc.example alpn=h2 port=8443", "HTTPS|10 svc.example alpn=h2 port=8443"},
+}
+
+type c09Sym struct {
+	exc, imp bool
+	canon    string // "" = value-less
+}
+
+var c09Syms = map[string]c09Sym{}
+
+func c09Texts(vals []c09Value) (texts []string) {
+	for _, v := range vals {
 		for _, exc := range []bool{false, true} {
 			for _, imp := range []bool{false, true} {
-				t := "||example.org^$dnsrewrite=" + v
+				t := "||example.org^$dnsrewrite=" + v.text
 				if imp {
 					t += ",important"
 				}
@@ -34,11 +54,25 @@ func c09Alphabet() (texts []string) {
 					t = "@@" + t
 				}
 				texts = append(texts, t)
+				c09Syms[t] = c09Sym{exc, imp, v.canon}
 			}
 		}
 	}
-	texts = append(texts, "@@||example.org^$dnsrewrite", "@@||example.org^$dnsrewrite,important", "||example.org^$dnsrewrite")
 	return texts
+}
+
+// c09Alphabet returns rule texts: value x important x exception, the two
+// empty-valued exceptions and the empty-valued non-exception rewrite.  The
+// first nCore of them are the core alphabet.
+func c09Alphabet() (texts []string, nCore int) {
+	texts = c09Texts(c09CoreValues)
+	texts = append(texts, "@@||example.org^$dnsrewrite", "@@||example.org^$dnsrewrite,important", "||example.org^$dnsrewrite")
+	c09Syms["@@||example.org^$dnsrewrite"] = c09Sym{true, false, ""}
+	c09Syms["@@||example.org^$dnsrewrite,important"] = c09Sym{true, true, ""}
+	c09Syms["||example.org^$dnsrewrite"] = c09Sym{false, false, ""}
+	nCore = len(texts)
+	texts = append(texts, c09Texts(c09MoreValues)...)
+	return texts, nCore
 }
 
 // c09SubAlphabet is the 14-symbol alphabet for the long sequences.
@@ -61,27 +95,21 @@ func c09SubAlphabet() []string {
 	}
 }
 
+// c09Disables: does exception e disable rewrite r?  Decided on the rules as
+// written (the canonical forms of the alphabet), not on the parsed values.
 func c09Disables(e, r *rules.NetworkRule) bool {
-	eImp := e.IsOptionEnabled(rules.OptionImportant)
-	rImp := r.IsOptionEnabled(rules.OptionImportant)
-	ed, rd := e.DNSRewrite, r.DNSRewrite
-	empty := ed.NewCNAME == "" && ed.RCode == 0 && ed.RRType == 0 && ed.Value == nil
-	if empty {
-		return eImp || !rImp
+	es, ok1 := c09Syms[e.RuleText]
+	rs, ok2 := c09Syms[r.RuleText]
+	if !ok1 || !ok2 {
+		panic(HarnessError("rule outside the rewrite alphabet: " + e.RuleText + " / " + r.RuleText))
 	}
-	if !eImp && rImp {
+	if es.canon == "" {
+		return es.imp || !rs.imp
+	}
+	if !es.imp && rs.imp {
 		return false
 	}
-	if ed.NewCNAME != "" {
-		return rd.NewCNAME == ed.NewCNAME
-	}
-	if rd.RCode != ed.RCode {
-		return false
-	}
-	if ed.RCode != 0 {
-		return true
-	}
-	return rd.RRType == ed.RRType && reflect.DeepEqual(rd.Value, ed.Value)
+	return es.canon == rs.canon
 }
 
 // c09Reference filters a sequence of rules the way the property states.
@@ -136,7 +164,7 @@ func c09CheckSeq(c *Ctx, seq []*rules.NetworkRule) bool {
 
 func init() {
 	register("C09", "exploration", func(c *Ctx) {
-		alpha := c09Alphabet()
+		alpha, nCore := c09Alphabet()
 		parsed := map[string]*rules.NetworkRule{}
 		get := func(t string) *rules.NetworkRule {
 			if r, ok := parsed[t]; ok {
@@ -175,51 +203,54 @@ func init() {
 		var mu sync.Mutex
 		var evals, nontrivial int64
 		exhaustive := true
-		// layer 1: all sequences of length 0..maxLen over the full alphabet, split by first symbol
-		k := len(alpha)
-		c.parallel(k+1, func(first int) {
-			var le, ln int64
-			run := func(seq []*rules.NetworkRule) {
-				le++
-				hasExc, hasRw := false, false
-				for _, r := range seq {
-					if r.Whitelist {
-						hasExc = true
-					} else {
-						hasRw = true
-					}
-				}
-				if hasExc && hasRw {
-					ln++
-				}
-				c09CheckSeq(c, seq)
-			}
-			if first == k {
-				run(nil)
-			} else {
-				for l := 0; l < maxLen; l++ {
-					if c.Expired() {
-						mu.Lock()
-						exhaustive = false
-						mu.Unlock()
-						break
-					}
-					enum.Sequences(k, l, func(s []int) bool {
-						seq := make([]*rules.NetworkRule, 0, l+1)
-						seq = append(seq, rulesA[first])
-						for _, i := range s {
-							seq = append(seq, rulesA[i])
+		// layer 1: all sequences of length 0..maxLen over the core alphabet and of
+		// length 0..maxLen-1 over the full one, split by first symbol
+		for _, pass := range [][2]int{{nCore, maxLen}, {len(alpha), maxLen - 1}} {
+			k, maxLen := pass[0], pass[1]
+			c.parallel(k+1, func(first int) {
+				var le, ln int64
+				run := func(seq []*rules.NetworkRule) {
+					le++
+					hasExc, hasRw := false, false
+					for _, r := range seq {
+						if r.Whitelist {
+							hasExc = true
+						} else {
+							hasRw = true
 						}
-						run(seq)
-						return true
-					})
+					}
+					if hasExc && hasRw {
+						ln++
+					}
+					c09CheckSeq(c, seq)
 				}
-			}
-			mu.Lock()
-			evals += le
-			nontrivial += ln
-			mu.Unlock()
-		})
+				if first == k {
+					run(nil)
+				} else {
+					for l := 0; l < maxLen; l++ {
+						if c.Expired() {
+							mu.Lock()
+							exhaustive = false
+							mu.Unlock()
+							break
+						}
+						enum.Sequences(k, l, func(s []int) bool {
+							seq := make([]*rules.NetworkRule, 0, l+1)
+							seq = append(seq, rulesA[first])
+							for _, i := range s {
+								seq = append(seq, rulesA[i])
+							}
+							run(seq)
+							return true
+						})
+					}
+				}
+				mu.Lock()
+				evals += le
+				nontrivial += ln
+				mu.Unlock()
+			})
+		}
 		// layer 2: longer sequences over the 14-symbol sub-alphabet
 		sub := c09SubAlphabet()
 		rulesS := make([]*rules.NetworkRule, len(sub))
@@ -311,7 +342,7 @@ func init() {
 		c.Run.Set("alphabet_size", int64(len(alpha)))
 		c.Run.Set("max_len_full_alphabet", int64(maxLen))
 		c.Run.Set("max_len_sub_alphabet", int64(subLen))
-		c.Run.Set("rule", fmt.Sprintf("every sequence of length 0..%d over %d rewrite symbols (value x important x exception, empty-valued exceptions), every sequence of length %d..%d over a 14-symbol sub-alphabet, and every sequence of length 1..%d of the sub-alphabet through DNSEngine.MatchRequest; all sequences are distinct; non-trivial = contains both an exception and a rewrite", maxLen, len(alpha), maxLen+1, subLen, engLen))
+		c.Run.Set("rule", fmt.Sprintf("every sequence of length 0..%d over the %d core rewrite symbols (value x important x exception, empty-valued exceptions) and of length 0..%d over all %d symbols (the same rewrites written the long way, an IPv4-mapped address in both spellings, HTTPS values differing in one parameter), every sequence of length %d..%d over a 14-symbol sub-alphabet, and every sequence of length 1..%d of the sub-alphabet through DNSEngine.MatchRequest; 'same rewrite' is decided on the values as written, not on the parsed fields; non-trivial = contains both an exception and a rewrite", maxLen, nCore, maxLen-1, len(alpha), maxLen+1, subLen, engLen))
 		c.Run.Set("exhaustive", exhaustive)
 		c.Run.Assumption("the parsed DNSRewrite values are taken from the rule parser (their shape is property C10)")
 	})
